@@ -300,9 +300,12 @@ def rule_helpers(ctx: Ctx, rep: Report) -> None:
         rep.ob(rule, f"tapleaf:{q.rsplit('.', 1)[1]}", bool(th) and bool(vb), fi.where(), "tagged_hash('TapLeaf', version || var_bytes(script))")
     # ext = tapleaf_hash || 0x00 || codesep_pos(4, little)
     oc = ctx.func("btclib.script.engine.tapscript.op_checksig")
-    ext = [n for n in own_nodes(oc.node) if isinstance(n, ast.Assign) and norm(n.targets[0]) == "ext"]
-    okx = bool(ext) and norm(ext[0].value).replace('"', "'") in ("tapleaf_hash + b'\\x00' + codesep_pos.to_bytes(4, 'little')",)
-    rep.ob(rule, "ext:op_checksig", okx, oc.where(), f"ext = {norm(ext[0].value) if ext else None}")
+    from sa import pattern as PT_
+    mx: dict[str, str] = {}
+    extn = PT_.find(oc.node, "$ext = $leaf + b'\\x00' + $pos.to_bytes(4, 'little')", mx)
+    # and it is what the sighash is handed
+    used = extn is not None and any(isinstance(c, ast.Call) and any(isinstance(a, ast.Name) and a.id == mx.get("ext") for a in c.args) for c in own_nodes(oc.node))
+    rep.ob(rule, "ext:op_checksig", used, oc.where(extn), "ext = tapleaf hash || 0x00 || codeseparator position (4 bytes, little-endian), handed to the sighash")
     ae = ctx.func(f"{SH}.taproot_annex_and_ext")
     ext2 = [n for n in own_nodes(ae.node) if isinstance(n, ast.Assign) and norm(n.targets[0]) == "ext" and not isinstance(n.value, ast.Constant)]
     # the two annex splitters (sighash side and engine side) apply one rule: >= 2 elements and first byte 0x50
